@@ -56,14 +56,17 @@ ReqLit(p, x) ==
     [] p = "Boolean" /\ x = "true" -> "1" [] p = "Boolean" /\ x = "false" -> "0"
     [] p = "Uuid" /\ x = "12345678-1234-1234-1234-123456789abc" -> "12345678-1234-1234-1234-123456789ABC"
     [] OTHER -> x
-RECURSIVE SpellV(_, _), FlatF(_)
+RECURSIVE SpellV(_, _), FlatF(_), FindSub(_, _)
 FlatF(t) == (IF t.hasbase THEN FlatF(t.base) ELSE <<>>) \o t.fields
+\* the class of an object value: the declared one or a registered subclass of it (SpynePolyCases)
+FindSub(subs, name) == IF subs = <<>> THEN [k |-> "none"] ELSE IF Head(subs).name = name THEN Head(subs) ELSE FindSub(Tail(subs), name)
+RuntimeT(t, v) == IF v[2] = t.name THEN t ELSE LET r == FindSub(t.subs, v[2]) IN IF r.k = "none" THEN t ELSE r
 SpellV(t, v) ==
   IF v = Nil THEN Nil
   ELSE IF v[1] = "seq" THEN <<"seq", [k \in 1..Len(v[2]) |-> SpellV(IF t.k = "arr" THEN t.of ELSE t, v[2][k])]>>
   ELSE IF t.k = "prim" THEN <<"leaf", ReqLit(t.p, v[2])>>
   ELSE IF t.k = "attr" THEN <<"leaf", ReqLit(t.of.p, v[2])>>
-  ELSE IF t.k = "obj" THEN <<"obj", v[2], [k \in 1..Len(v[3]) |-> SpellV(FlatF(t)[k].t, v[3][k])]>>
+  ELSE IF t.k = "obj" THEN <<"obj", v[2], [k \in 1..Len(v[3]) |-> SpellV(FlatF(RuntimeT(t, v))[k].t, v[3][k])]>>
   ELSE v
 Case(id, style, args, vals, rets, rvals) ==
   [id |-> id, tns |-> "tns", method |-> "f", style |-> style, args |-> args, vals |-> vals,
